@@ -96,11 +96,11 @@ def tree_counts(t, acc):
 
 def main(run):
     tier = run.tier
-    nscripts = 16 if tier == "quick" else 64
-    seeds = [0, 1] if tier == "quick" else [0, 1, 2, 3]
+    nscripts = 18 if tier == "quick" else 63
+    seeds = [0, 1, 2] if tier == "quick" else [0, 1, 2, 3]
     known = {k["id"]: k for k in vlib.load_known_findings("C12")}
     if tier == "quick":     # every advance with hash seed 0, the other hash seeds at advances 0 and 9
-        configs = [(a, seeds[0]) for a in ADVANCES] + [(a, h) for a in (0, 9) for h in seeds[1:]]
+        configs = [(a, seeds[0]) for a in ADVANCES] + [(0, 1), (0, 2), (9, 1)]
     else:
         configs = [(a, h) for a in ADVANCES for h in seeds]
     with cf.ThreadPoolExecutor(max_workers=vlib.NCPU) as ex:
@@ -133,6 +133,13 @@ def main(run):
             rec = {"script": k, "kind": A["kind"], "seed": run.seed,
                    "config_A": {"advance": base[0], "PYTHONHASHSEED": base[1], "signature": A["sig"], "form": A["str"]},
                    "config_B": {"advance": c[0], "PYTHONHASHSEED": c[1], "signature": B["sig"], "form": B["str"]},
+                   "failing_input": {"build_script": f"py/C12_build.py: build(k={k}, seed={run.seed})",
+                                     "history_A": f"fresh process, PYTHONHASHSEED={base[1]}, {base[0]} objects of every "
+                                                  "counted class created and discarded first",
+                                     "history_B": f"fresh process, PYTHONHASHSEED={c[1]}, {c[0]} objects of every "
+                                                  "counted class created and discarded first",
+                                     "form_A": A["str"], "form_B": B["str"]},
+                   "observed": {"signature_A": A["sig"], "signature_B": B["sig"]},
                    "expected": "equal signatures (same build script, only the global counters / hash seed differ)",
                    "reproduce": f"PYTHONHASHSEED={c[1]} PYTHONPATH=$UFL_REPO:/verif/py python /verif/py/C12_build.py "
                                 f"{c[0]} {k + 1} {run.seed}   # compare result k={k} with advance {base[0]}"}
